@@ -217,11 +217,13 @@ def s7_tx_length(F, R, roles, h12, h10):
     the transmit path is folded over lengths around both header sizes."""
     n = 0
     for b in F.bodies.values():
-        if not F.handwritten(b) or b['kind'] != 'AssocFn' or b.get('impl_adt') != RAW or b.get('pub'):
+        if not F.handwritten(b) or b['kind'] != 'AssocFn' or b.get('impl_adt') != RAW:
             continue
+        if any(bl['term']['k'] == 'call' and (bl['term'].get('fn') in roles or (F.bodies.get(bl['term'].get('fn')) or {}).get('impl_adt') == RAW) for bl in b['blocks']):
+            continue      # only the pure length tests / header writers, not the operations that call them
         fn = b
         slices = [i + 1 for i, l in enumerate(fn['locals'][1:fn['arg_count'] + 1]) if l['ty'].endswith('[u8]')]
-        if len(slices) != 1 or 'Result<()' not in b.get('sig', '').replace(' ', '').replace('core::result::', '') and '-> core::result::Result<(), ' not in b.get('sig', ''):
+        if len(slices) != 1 or '-> core::result::Result<' not in b.get('sig', ''):
             continue
         if not any(bl['term']['k'] == 'call' and bl['term'].get('fn') == 'core::mem::size_of' and (bl['term'].get('substs') or [''])[0] in (h12, h10) for bl in b['blocks']):
             continue
